@@ -172,22 +172,25 @@ def validate_parallel(module, judge, trace_file, work, parts=8, min_rows=400, **
         lines = [l for l in f if l.strip()]
     if len(lines) < min_rows:
         return validate(module, judge, trace_file, work, **kw)
-    size = -(-len(lines) // parts)
-
+    # part k holds the lines k, k + parts, k + 2 parts, ...: expensive lines, which tend to sit together, are spread out
     def one(k):
         sub = os.path.join(work, "part-%s-%d" % (judge, k))
         os.makedirs(sub, exist_ok=True)
         tf = os.path.join(sub, "trace.ndjson")
         with open(tf, "w") as f:
-            f.writelines(lines[k * size:(k + 1) * size])
+            f.writelines(lines[k::parts])
         r = validate(module, judge, tf, sub, heap="4g", **kw)
         shutil.rmtree(sub, ignore_errors=True)
+        if len(r["verdicts"]) != len(lines[k::parts]):
+            raise Machinery("part %d of the trace: %d verdicts for %d lines" % (k, len(r["verdicts"]), len(lines[k::parts])))
         return r
     with ThreadPoolExecutor(max_workers=parts) as ex:
-        results = list(ex.map(one, range(-(-len(lines) // size))))
+        results = list(ex.map(one, range(parts)))
     res = dict(results[0])
-    res["verdicts"] = [v for r in results for v in r["verdicts"]]
-    res["rows"] = [v for r in results for v in r["rows"]]
+    res["verdicts"], res["rows"] = [None] * len(lines), [None] * len(lines)
+    for k, r in enumerate(results):
+        res["verdicts"][k::parts] = r["verdicts"]
+        res["rows"][k::parts] = r["rows"]
     res["wall_s"] = max(r["wall_s"] for r in results)
     return res
 
